@@ -1183,8 +1183,11 @@ impl Driver {
                 self.failures.push(json!({"class": "tool", "what": "RemoveBackend not acknowledged"}));
             }
         }
-        for _ in 0..self.rng.random_range(2..5usize) {
-            let which = self.rng.random_range(0..5);
+        let rounds = self.rng.random_range(2..5usize);
+        let first = self.rng.random_range(0..rounds);
+        for r in 0..rounds {
+            // every wave has at least one session on the cluster that has no backend at all
+            let which = if r == first { 0 } else { self.rng.random_range(0..5) };
             let victim_kind = match which {
                 0 => Some(Kind::TcpNone),
                 1 => Some(Kind::TcpGone),
